@@ -378,6 +378,8 @@ package openapi3
 //@   modifies nothing
 // the exported entry point: runs the visitor with the given options (it may put defaults into the
 // value in request/response mode; it never writes the document - C15 scan)
+//@ spec visitOK(s *Schema, v any) bool
 //@ func (*Schema).VisitJSON
 //@   modifies *
 //@   preserves all(openapi3), openapi3filter.ResponseValidationInput.Body
+//@   defines (result == nil) <==> visitOK(schema, value)
